@@ -19,10 +19,11 @@ variable {α D : Type} [Add α] [Sub α] [Mul α] [Div α] [Neg α] [LT α] [LE 
   [DecidableLE α] [BEq α] [RealLike α] [NatCast α] [OfScientific α]
   [OfNat α 0] [OfNat α 1] [OfNat α 2] [OfNat α 100]
 
-/-- lazy gradient evaluation: whenever the `∇ψ(x̂)` buffer is flagged valid it holds
-    `eval_grad_L(x̂, ŷ)` of the iterate's own `x̂`, `ŷ`. -/
+/-- Whenever the `∇ψ(x̂)` buffer is flagged valid it holds `eval_grad_L(x̂, ŷ)` of the iterate's own
+    `x̂`, `ŷ` — with lazy gradient evaluation, or in eager mode for consistent oracles (`OracleLaw`:
+    then `eval_ψ_grad_ψ(x̂)` leaves `ŷ(x̂)` in `ŷx̂` and `∇L(x̂, ŷ(x̂))` in the buffer). -/
 def GradHatCons (P : Problem α) (pr : Params α) (i : Iterate α) : Prop :=
-  pr.eagerGradientEval = false → i.haveGradHat = true → i.gradPsiHat = P.gradL i.xhat i.yhat
+  YhatMode P pr → i.haveGradHat = true → i.gradPsiHat = P.gradL i.xhat i.yhat
 
 theorem gh_of_flag_false (P : Problem α) (pr : Params α) (i : Iterate α) (h : i.haveGradHat = false) :
     GradHatCons P pr i := by
@@ -30,9 +31,16 @@ theorem gh_of_flag_false (P : Problem α) (pr : Params α) (i : Iterate α) (h :
 
 theorem gh_evalStep (P : Problem α) (pr : Params α) (i : Iterate α) :
     GradHatCons P pr (evalPsiHat P pr (evalProxGradStep P i)) := by
-  intro he
+  intro hm
   unfold evalPsiHat
-  simp [he]
+  by_cases h : pr.eagerGradientEval
+  · simp only [h, if_true]
+    rcases hm with hl | hlaw
+    · exact absurd hl (by simp [h])
+    · intro _
+      show (P.psiGradPsi _).2.1 = P.gradL _ (P.psiGradPsi _).2.2
+      rw [(hlaw _).1, (hlaw _).2]
+  · simp [h]
 
 theorem gh_evalGradPsiHat (P : Problem α) (pr : Params α) (i : Iterate α) :
     GradHatCons P pr (evalGradPsiHat P i) := fun _ _ => rfl
